@@ -27,7 +27,7 @@ ExplainedByPruning(o) == \A i \in DOMAIN o[2] : o[2][i][5] = 1 \/ (o[2][i][2] = 
 
 Init == l = 1
 Next == /\ l <= Len(Trace) /\ l' = l + 1
-        /\ CASE Ev.op \in {"add", "remove", "flush"} ->
+        /\ CASE Ev.op \in {"add", "remove", "flush", "reload"} ->
                   LET u == Unreachable(Ev) IN (u # {} => PrintT("REPORT reach0 " \o ToString(l) \o " " \o ToString(u)))
              [] Ev.op = "search" ->
                   /\ ((Ev.live # <<>> /\ Ev.res = <<>>) => PrintT("REPORT nonempty " \o ToString(l)))
